@@ -56,6 +56,7 @@ SPEC = [
     ("namespace.py", ["find_by_qn", "findall_by_qn"]),
     ("docx_context.py", ["NumIdAttrs", "collect_numAttrs"]),
     ("docx_output.py", ["DocxContent._get_pars", "DocxContent.header_pars", "DocxContent.footer_pars", "DocxContent.officeDocument_pars", "DocxContent.body_pars", "DocxContent.footnotes_pars", "DocxContent.endnotes_pars", "DocxContent.document_pars", "DocxContent.header_runs", "DocxContent.footer_runs", "DocxContent.officeDocument_runs", "DocxContent.body_runs", "DocxContent.footnotes_runs", "DocxContent.endnotes_runs", "DocxContent.document_runs", "DocxContent.header", "DocxContent.footer", "DocxContent.officeDocument", "DocxContent.body", "DocxContent.footnotes", "DocxContent.endnotes", "DocxContent.document", "DocxContent.text"]),
+    ("attribute_register.py", ["_format_just_return_tag", "_format_strike", "_format_vertAlign", "_format_smallCaps", "_format_caps", "_format_highlight", "_format_sz", "_format_color", "_format_heading"]),
 ]
 
 EXN = {"ValueError", "KeyError", "IndexError", "TypeError", "AttributeError", "StopIteration"}
@@ -215,7 +216,8 @@ class Fn:
                             roots.add(self.root_of(t)[0])
                 elif isinstance(n, ast.Delete):
                     for t in n.targets:
-                        roots.add(self.root_of(t)[0])
+                        if not isinstance(t, ast.Name):
+                            roots.add(self.root_of(t)[0])
         return roots
 
     def assigned(self, stmts) -> list:
@@ -245,7 +247,8 @@ class Fn:
                     tgt(st.target)
                 elif isinstance(st, ast.Delete):
                     for t in st.targets:
-                        tgt(t)
+                        if not isinstance(t, ast.Name):
+                            tgt(t)
                 elif isinstance(st, ast.Expr):
                     if isinstance(st.value, (ast.Yield, ast.YieldFrom)):
                         out.add("acc_")
@@ -399,7 +402,14 @@ class Fn:
                 return t
             if isinstance(e, ast.Subscript):
                 if isinstance(e.slice, ast.Slice):
-                    die(e, "slices are not translated")
+                    if e.slice.step is not None:
+                        die(e, "slice steps are not translated")
+                    a = go(e.value)
+                    lo = go(e.slice.lower) if e.slice.lower is not None else "VNone"
+                    hi = go(e.slice.upper) if e.slice.upper is not None else "VNone"
+                    t = self.fresh()
+                    L.append(self.bindline(mode, t, f"py_slice {a} {lo} {hi}"))
+                    return t
                 a, i = go(e.value), go(e.slice)
                 t = self.fresh()
                 L.append(self.bindline(mode, t, f"py_index {a} {i}"))
@@ -727,6 +737,13 @@ class Fn:
                      f"(fun c_ => (old_ <- py_index c_ {P[-1]} ;; new_ <- {BIN[type(st.op)]} old_ {a} ;; "
                      f"py_setitem c_ {P[-1]} new_)) ;;;")
             return "\n".join([pad + l for l in L] + [cont()])
+        if isinstance(st, ast.Delete) and all(isinstance(t, ast.Name) for t in st.targets) and ind == 2:
+            # `del name` at the top level of a function: the name is unbound from here on (a later use is rejected)
+            for t in st.targets:
+                if t.id not in env:
+                    die(st, f"del of the unbound name {t.id}")
+                env.discard(t.id)
+            return cont()
         if isinstance(st, ast.Delete):
             L = []
             for t in st.targets:
